@@ -409,11 +409,20 @@ func runC18(t *testing.T, cases []map[string]interface{}, ev *vEvents) {
 				Form: url.Values{"username": {"alice"}, "password": {"wrong"}, "login_destination": {"/x?a=" + payload}}}))
 			pages = append(pages, w.Do(vReq{Method: "POST", Path: "/api/v0/login", Headers: htmlH,
 				Form: url.Values{"username": {"alice"}, "password": {"wrong"}, "login_destination": {"/" + payload}}}))
+			// destinations no URL parser accepts (bad percent escape, control character, colon in the first segment)
+			for _, pre := range []string{"/%zz", "/a%", "/x\x7f", "/:a"} {
+				pages = append(pages, w.Do(vReq{Method: "POST", Path: "/api/v0/login", Headers: htmlH,
+					Form: url.Values{"username": {"alice"}, "password": {"wrong"}, "login_destination": {pre + payload}}}))
+			}
 		case "login_dest_2fapage":
 			pages = append(pages, w2.Do(vReq{Method: "POST", Path: "/api/v0/login", Headers: htmlH,
 				Form: url.Values{"username": {"alice"}, "password": {"pw-alice"}, "login_destination": {"/x?a=" + payload}}}))
 			pages = append(pages, w2.Do(vReq{Method: "POST", Path: "/api/v0/login", Headers: htmlH,
 				Form: url.Values{"username": {"alice"}, "password": {"pw-alice"}, "login_destination": {"/" + payload + "#" + payload}}}))
+			for _, pre := range []string{"/%zz", "/a%"} {
+				pages = append(pages, w2.Do(vReq{Method: "POST", Path: "/api/v0/login", Headers: htmlH,
+					Form: url.Values{"username": {"alice"}, "password": {"pw-alice"}, "login_destination": {pre + payload}}}))
+			}
 		case "redirect_bodies":
 			for _, d := range []string{"/x?a=" + payload, "/x/" + payload, "/x#" + payload} {
 				for _, m := range []string{"POST", "GET"} {
